@@ -44,6 +44,10 @@ def instances(tier, seed):
         out.append({"name": "eqff-layout%02d" % li, "fn": "eq_ff", "timeout": T, "params": {"layout": li, "L": L}})
     for ai in range(len(ATT)):
         out.append({"name": "eqfs-att%02d" % ai, "fn": "eq_fs", "timeout": T, "params": {"att": ai, "L": L}})
+    # values derived by re-formatting a source that was hashed / compared / rendered before
+    for li in (2, 3, 10, 12, 15):
+        for d in range(len(DERIVS)):
+            out.append({"name": "eqder-layout%02d-d%d" % (li, d), "fn": "eq_derived", "timeout": T, "params": {"layout": li, "L": L, "deriv": d}})
     for li in (3, 5, 6, 8, 9, 13, 18):
         out.append({"name": "eqterm-layout%02d" % li, "fn": "eq_term", "timeout": T, "params": {"layout": li, "L": L}})
     if tier == "quick":
@@ -154,7 +158,36 @@ def eq_term(t0: str, t1: str, u0: str, u1: str) -> bool:
     return verdict(ok, same and len(t0) >= 1)
 
 
-RTEXTS1 = ["", "a", "'", "\\", "\n", "\u00e9", '"', "a'b", "\x1b"]
+DERIVS = [("add", {"bold": True}), ("add", {"fg": 32}), ("remove", ("fg",)), ("remove", ("bold", "underline"))]
+
+
+def _derive(f0, d):
+    """(derived value, the same value built directly)"""
+    from curtsies.formatstring import FmtStr, Chunk
+    kind, arg = DERIVS[d]
+    hash(f0), str(f0), f0 == f0, len(f0), f0.s          # the source was used as a key / compared / shown before
+    if kind == "add":
+        f = f0.copy_with_new_atts(**arg)
+        g = FmtStr(*[Chunk(c.s, dict(dict(c.atts), **arg)) for c in f0.chunks])
+    else:
+        f = f0.new_with_atts_removed(*arg)
+        g = FmtStr(*[Chunk(c.s, {k: v for k, v in dict(c.atts).items() if k not in arg}) for c in f0.chunks])
+    return f, g
+
+
+def eq_derived(t0: str, t1: str) -> bool:
+    """
+    pre: _small(P["L"], t0, t1)
+    post: _
+    """
+    la, _ = LAYOUTS[P["layout"]]
+    f0 = _mk(la, [t0, t1])
+    f, g = _derive(f0, P["deriv"])
+    ok = _coherent(f, g) and str(f) == str(g) and hash(f) == hash(str(g))
+    return verdict(ok, len(la) >= 1 and len(t0) >= 1)
+
+
+RTEXTS1 = ["", "a", "'", "\\", "\n", "\u00e9", '"', "a'b", "\x1b", "'\n", "'\\t", "it's\ta", "'\"\\"]
 RTEXTS2 = ["", "a", "'"]
 
 
@@ -212,6 +245,14 @@ def concrete(fn, params, args):
                "o in {f}": other in {f}, "same_terminal_string": same}
         ok = obs["f==o"] == same and obs["o==f"] == same and obs["f!=o"] != same and (not same or obs["hash_equal"]) and obs["o in {f}"] == same
         return {"ok": ok, "observed": obs, "expected": "==, !=, hash and membership follow the terminal strings", "call": "f=%r other=%r" % (f, other)}
+    if fn == "eq_derived":
+        la, _ = LAYOUTS[params["layout"]]
+        f0 = _mk(la, list(args[0:2]))
+        f, g = _derive(f0, params["deriv"])
+        obs = {"f==g": f == g, "hash_equal": hash(f) == hash(g), "hash_of_own_string": hash(f) == hash(str(f)), "g in {f}": g in {f},
+               "same_terminal_string": str(f) == str(g)}
+        return {"ok": all(obs.values()), "observed": obs, "expected": "the derived value equals, and hashes like, the same value built directly",
+                "call": "source %r (hashed, compared, rendered) then %s%r" % (f0, DERIVS[params["deriv"]][0], DERIVS[params["deriv"]][1])}
     if fn == "eq_fs":
         f = _mk((params["att"],), [args[0]])
         s = args[1]
